@@ -117,3 +117,19 @@ CHECKS["C03"] = {
   "text": "Up to ~40 operations of all six market families and the broker per case against one wallet; after every step, accepted or rejected: net value not up by more than dust; uniswap add / remove / collect and aave supply / withdraw / borrow / repay / flag conserve it; swaps, buys, sells lose exactly the reported fee at the frozen price; helpers lose at most fees; every wallet balance, liquidity, pending amount, scaled supply / debt, vault collateral / short, option cash / amount, GLP, reward, GM >= 0; the broker's net value equals the C01 reference. The two modelled value-raising effects (index-vs-mark revaluation of an LP position held by a vault; GMX v2 positive price impact) are verified against their exact formulas and reported as known findings; anything beyond them is a violation. Sampled exploration.",
   "note": "Tolerances are tighter than the property's dust unless a wallet balance was emptied (the documented 1e-5 snap). Caller-priced swaps are excluded. Prices agree with the pools' own by construction of the case.",
 }
+
+# ---- additions after the seeded-change rounds (DESIGN section 8)
+CHECKS["C05"]["text"] += " Operations issued from inside notify() record and are notified within the same bar; every market whose has_update flag is set when on-bar ends is refreshed again before update()."
+CHECKS["C08"]["text"] += " Second sub-check 'universe': the same formula for every pool position - incl. positions lent to squeeth vaults - inside multi-market universes (1/2/5/15/60-minute bars, operations in all phases incl. after-bar and notify)."
+CHECKS["C08"]["technique"] += "; the formula re-applied to all pool positions of generated multi-market universes"
+CHECKS["C07"]["text"] += " The deposit price is also passed as an explicit tick (0, -1, 1, the bounds, the middle) while the market stands at another price."
+CHECKS["C09"]["text"] += " Collects are also capped, with caps stated in base / quote terms."
+CHECKS["C14"]["text"] += " Rows are spaced 1, 2 or 5 minutes (the window is seven minutes, not seven rows); lent LP positions may carry pending amounts."
+CHECKS["C15"]["text"] += " One book in five lives on a binary-exact price grid so that a level can sit exactly on mark x multiple; there the accept / reject decision is not asserted, but an accepted order must credit exactly what its fills add up to and cost."
+CHECKS["C15"]["note"] = "Decisions closer than 1e-9 to their boundary are not asserted as accept / reject; boundary-independent consistency (position = sum of fills, cash = cost + fee) still is."
+CHECKS["C16"]["text"] += " Purchases are spread over several hours (holdings with different expiries built up over time)."
+CHECKS["C18"]["text"] += " Delays of one and two days are included."
+CHECKS["C20"]["text"] += " Every call must leave the series it was given unchanged and a repeated call on the same series must agree."
+CHECKS["C02"]["text"] += " Prices are handed over as a plain frame (USD quote) or in the (frame, quote token) tuple form; option orders use every pricing mode; histories have up to 12 bars with cuts weighted towards late bars."
+CHECKS["C04"]["text"] += " The snapshot includes the Aave views a user reads right after a rejected call (health factor, supply / collateral / debt values and listings)."
+CHECKS["C03"]["text"] += " Option books may sit on a binary-exact grid (levels exactly on a cap); LP positions already held by a vault are offered to a second vault."
